@@ -5,3 +5,5 @@ func runC12ClientImpl(rcx *RunCtx) { rcx.Trivial = true; rcx.Res = nil; runC12Se
 func runC13ClientImpl(rcx *RunCtx) { rcx.Trivial = true; rcx.Res = nil; runC13Server(rcx) }
 func runC12Server(rcx *RunCtx)     { rcx.Index = c12Cases() + 2*rcx.Index; runC12(rcx) }
 func runC13Server(rcx *RunCtx)     { rcx.Index = c13Cases() + 2*rcx.Index; runC13(rcx) }
+
+func runC02Client(rcx *RunCtx) { rcx.Index = rcx.Index*4 + 1; runC02(rcx) }
